@@ -206,6 +206,18 @@ def enc_write (ext : Ext) (i : Inner) (buf : Bytes) : M (Except ZErr UInt64 × I
     pure (.ok (UInt64.ofNat (ext.accept buf)), .compressor m l enc (pending ++ buf.take (ext.accept buf)))
   | .closed => M.panic "rs2lean: write through a closed writer"
 
+/-- `w.flush()` on the `&mut dyn Write` of `ref_mut()`: a plain storer forwards to the sink's own `flush`
+(one I/O call); `ZipCryptoWriter::flush` is `Ok(())` without I/O; an encoder's `flush` (flate2 / bzip2 / zstd:
+end the current block, hand the compressed bytes so far to the layer below) is given the model's meaning
+(`Model.flushWriter`): `Ok(())`, the state of the stack as this model sees it unchanged, no sink call - the
+calls it would make under an injected fault are NOT modelled. -/
+def enc_flush (ext : Ext) (i : Inner) : M (Except ZErr Unit) :=
+  match i with
+  | .storer none => M.attempt M.flush
+  | .storer (some _) => pure (.ok ())
+  | .compressor _ _ _ _ => pure (.ok ())
+  | .closed => M.panic "rs2lean: flush through a closed writer"
+
 /-- The panic of `position` below. -/
 def OVF : String := "rs2lean: sink position exceeds u64"
 
